@@ -15,7 +15,7 @@ import ast
 from typing import Dict, List, Optional, Set
 
 from ..front_py import AnalysisError, FuncInfo, walk_local, norm, dotted
-from ..dataflow import Defs, Provenance, stores_in
+from ..dataflow import Defs, Provenance, stores_in, resolve_local
 from ..predicates import Extractor, Undecided, canon
 from .codec_py import lin, lin_eq, fmt_lin
 from .C15 import order_of
@@ -51,10 +51,12 @@ def run(eng, rep) -> None:
     emits = []
     for f in reach:
         for n in walk_local(f.node):
-            if isinstance(n, ast.Call) and isinstance(n.func, ast.Attribute) and n.func.attr == "append" and n.args and isinstance(n.args[0], ast.Call):
-                cs = cg.site_of.get(id(n.args[0]))
-                if cs and any(c.startswith(VALUE + ".") for c in cs.callees):
-                    emits.append((f, n, n.args[0]))
+            if isinstance(n, ast.Call) and isinstance(n.func, ast.Attribute) and n.func.attr == "append" and n.args:
+                a0 = resolve_local(n.args[0], Defs(f.node))
+                if isinstance(a0, ast.Call):
+                    cs = cg.site_of.get(id(a0))
+                    if cs and any(c.startswith(VALUE + ".") for c in cs.callees):
+                        emits.append((f, n, a0))
     live = [(f, n, v) for f, n, v in emits]
     rep.floor("R04.2", "leaf emission sites", len(live), 1)
     if not live:
@@ -73,7 +75,7 @@ def run(eng, rep) -> None:
 
     CUR = None
     for f, n, v in live:
-        st = arg_of(v, "bitstart")
+        st = resolve_local(arg_of(v, "bitstart"), Defs(f.node))
         if st is not None and norm(st).startswith("self."):
             CUR = norm(st)
     if CUR is None:
@@ -131,7 +133,8 @@ def run(eng, rep) -> None:
     names = {CUR: "cursor"}
     for f, n, v in live:
         st, ln = arg_of(v, "bitstart"), arg_of(v, "bitlength")
-        rep.check(st is not None and norm(st) == CUR, "R04.2", f.file, f.qual, "start = %s" % (norm(st) if st is not None else "?"), "leaf starts at the cursor", "leaf start is not the bit cursor (gap/overlap)")
+        st_r = resolve_local(st, Defs(f.node)) if st is not None else None
+        rep.check(st is not None and (norm(st) == CUR or norm(st_r) == CUR), "R04.2", f.file, f.qual, "start = %s" % (norm(st) if st is not None else "?"), "leaf starts at the cursor", "leaf start is not the bit cursor (gap/overlap)")
         cfgf = eng.cfg(f)
         nid = cfgf.stmt_node_containing(n)
         advs = []
@@ -141,10 +144,31 @@ def run(eng, rep) -> None:
             elif isinstance(w, ast.Assign) and any(norm(t) == CUR for t in w.targets):
                 advs.append(w)
         good = []
+        defs_f = Defs(f.node)
+
+        def same_len(e) -> bool:
+            """e denotes the emitted leaf's length: the same expression (through single local bindings) or the
+            .bitlength of the emitted Value object"""
+            if ln is None:
+                return False
+            if norm(e) == norm(ln) or norm(resolve_local(e, defs_f)) == norm(resolve_local(ln, defs_f)):
+                return True
+            if isinstance(e, ast.Attribute) and e.attr == "bitlength" and resolve_local(e.value, defs_f) is v:
+                return True
+            return False
+
+        def cursor_before(e) -> bool:
+            """e is the cursor, or a local that captured the cursor (off = self.bitstart) before the emission"""
+            if norm(e) == CUR:
+                return True
+            r = resolve_local(e, defs_f)
+            return r is not e and norm(r) == CUR
+
         for w in advs:
-            if isinstance(w, ast.AugAssign) and isinstance(w.op, ast.Add) and ln is not None and norm(w.value) == norm(ln):
+            if isinstance(w, ast.AugAssign) and isinstance(w.op, ast.Add) and same_len(w.value):
                 good.append(w)
-            elif isinstance(w, ast.Assign) and ln is not None and norm(w.value) in ("%s + %s" % (CUR, norm(ln)), "%s + %s" % (norm(ln), CUR)):
+            elif isinstance(w, ast.Assign) and isinstance(w.value, ast.BinOp) and isinstance(w.value.op, ast.Add) and (
+                    (cursor_before(w.value.left) and same_len(w.value.right)) or (cursor_before(w.value.right) and same_len(w.value.left))):
                 good.append(w)
             else:
                 rep.violation("R04.2", f.file, f.qual, norm(w, 60), "cursor changes by %s but the emitted leaf has length %s: leaves no longer tile" % (norm(w.value if isinstance(w, ast.AugAssign) else w, 40), norm(ln) if ln is not None else "?"))
@@ -187,7 +211,7 @@ def run(eng, rep) -> None:
                     rep.check(order == "sorted", "R04.4", f.file, f.qual, "for ... in %s" % norm(n.iter, 70), "ascending field_id", "layout iterates fields in %s order, not ascending field_id" % order)
     # ---- R04.5 ----------------------------------------------------------------------
     for f, n, v in live:
-        fld_name = arg_of(v, "name")
+        fld_name = resolve_local(arg_of(v, "name"), Defs(f.node))
         field_vars = {x.value.id for x in ast.walk(fld_name) if isinstance(x, ast.Attribute) and x.attr == "name" and isinstance(x.value, ast.Name)} if fld_name is not None else set()
         lookups = [c for c in ast.walk(f.node) if isinstance(c, ast.Call) and isinstance(c.func, ast.Attribute) and c.func.attr in ("get_signal", "get_signal_fields")]
         for c in lookups:
@@ -230,7 +254,7 @@ def run(eng, rep) -> None:
                 root = root.value
             if isinstance(root, ast.Name) and root.id != "self" and kind in ("attr-store", "sub-store", "mutcall", "aug") and not (kind == "aug" and isinstance(tgt, ast.Name)):
                 vals = defs.values(root.id)
-                is_copy = bool(vals) and all(isinstance(v, ast.Call) and (dotted(v.func) or "").split(".")[-1] in ("copy", "deepcopy", "replace") for k, v, s_ in vals if k == "assign")
+                is_copy = bool(vals) and all(isinstance(v, ast.Call) and (dotted(v.func) or "").split(".")[-1] in ("copy", "deepcopy", "replace", "list", "sorted", "dict", "set", "tuple") for k, v, s_ in vals if k == "assign")
                 fresh = bool(vals) and all(isinstance(v, (ast.List, ast.Dict, ast.ListComp)) or (isinstance(v, ast.Call) and isinstance(eng.T.fn(f).of(v), tuple) and eng.T.fn(f).of(v)[0] == "inst") for k, v, s_ in vals if k == "assign")
                 rep.check(is_copy or fresh, "R04.6", f.file, f.qual, norm(st, 60), "writes a copy / a fresh local", "layout mutates a schema object (%s): the caller's schema changes as a side effect" % root.id)
 
